@@ -214,7 +214,8 @@ fn pool_saturation(seed: u64, tier: Tier) -> serde_json::Value {
     let mut out = serde_json::Map::new();
     for n in [1usize, 2] {
         let scn = pool::PoolScn {
-            broadcasts: vec![pool::Bcast { n, api: pool::Api::Broadcast, panics: Vec::new(), helper_caller: false, payload_bomb: false }],
+            broadcasts: vec![pool::Bcast { n, api: pool::Api::Broadcast, panics: Vec::new(), helper_caller: false, payload_bomb: false, lane: 0 }],
+            lanes: 1,
             spurious_parks: Vec::new(),
             cas_weak_fail: Vec::new(),
         };
